@@ -128,7 +128,7 @@ impl Prop for C19 {
         .boxed()
     }
     fn random_cases(&self, tier: Tier) -> u32 {
-        tier.pick(40_000, 1_000_000)
+        tier.pick(400_000, 4_000_000)
     }
     fn hang_is_violation(&self) -> bool {
         true
